@@ -847,7 +847,14 @@ class CallMixin(ExprMixin):
                 ys = State(dict(env), st.pc, None, "spec", None, dict(st.ghost))
                 ys.env["out"] = T("list", U.acc("gseq", g))
                 for cl in c.yields:
-                    facts.append(z3.Implies(normal, self.truthy(self.ev1(c.parsed(cl), ys))))
+                    ft = self.truthy(self.ev1(c.parsed(cl), ys))
+                    # per-element clauses `all(P(n) for n in out)` are prefix-closed: they also hold for what
+                    # was yielded before a raise (A6; verified at normal exits only)
+                    facts.append(ft if cl.strip().startswith("all(") else z3.Implies(normal, ft))
+                rs_ = State(dict(env), st.pc, None, "spec", None, dict(st.ghost))
+                rs_.env["result"] = T("V", g)
+                for cl in c.ensures:  # clauses about the generator's outcome as a whole (result = the iterator)
+                    facts.append(self.truthy(self.ev1(c.parsed(cl), rs_)))
                 allowed = list(c.raises)
                 if allowed:
                     facts.append(z3.Or(normal, *[U.isinstance_exc(gexc, a) for a in allowed]))
